@@ -198,7 +198,15 @@ def h_factory_vector(ctx, nl, nr, method, lam_value=1):
     if method == "BINARYSEARCHTREE":
         draw = lambda: int(smp.sample_with_u(u))
     elif method == "ALIAS":
-        draw = lambda: int(smp.states(int(smp._draw_with_u(u))))
+        # the batch entry point the simulators call, with its uniform generator handing out u
+        class _U:
+            def sample(self, size=1):
+                out = np.empty(size, dtype=object)
+                out.fill(u)
+                return out
+
+        smp.uniform = _U()
+        draw = lambda: int(np.asarray(smp.sample(size=1)).reshape(-1)[0])
     else:
         raise ValueError(method)
     leaves = ctx.enumerate(draw)
@@ -229,7 +237,18 @@ def replay_factory_vector(sc):
         cnt = {}
         for j in range(n):
             uu = (j + 0.5) / n
-            k = int(smp.sample_with_u(uu)) if method == "BINARYSEARCHTREE" else int(smp.states(int(smp._draw_with_u(uu))))
+            if method == "BINARYSEARCHTREE":
+                k = int(smp.sample_with_u(uu))
+            else:
+                class _U:
+                    def sample(self, size=1, uu=uu):
+                        return np.full(size, uu)
+
+                smp.uniform = _U()
+                try:
+                    k = int(np.asarray(smp.sample(size=1)).reshape(-1)[0])
+                except Exception as e:
+                    return True, f"{name}: {method} sampler built by the factory: sample(size=1) raises {type(e).__name__}: {e}"
             cnt[k] = cnt.get(k, 0) + 1
         for k, (lo, hi) in cells(ax, piv).items():
             want = quad_mass(model.levy_triplet.nu, float(lo), float(hi)) / proc.intensity_of_jumps
